@@ -132,7 +132,7 @@ def run(v) -> None:
                                 "  HLen = 3", '  Variant = "fixed"', "INVARIANT Emit", "CHECK_DEADLOCK FALSE"]
     behs = []
     gens = [(2, 8, 2, None)] if quick else [(3, 8, 2, None), (2, 2, 4, None), (2, 4, 2, None), (2, 1, 8, None)]
-    sims = [(5, 8, 2, 150), (4, 2, 4, 100)] if quick else [(6, 8, 2, 3000), (5, 2, 4, 1500), (5, 4, 2, 1500), (5, 1, 8, 1500)]
+    sims = [(5, 8, 2, 150), (4, 2, 4, 100)] if quick else [(5, 8, 2, 3000), (4, 2, 4, 1500), (4, 4, 2, 1500), (3, 1, 8, 800)]
     for maxn, nb, c, num in gens + sims:
         behs += behaviours.generate("Gen_Sigpyproc", {}, cfgl(maxn, nb, c), simulate=(f"num={num}" if num else None),
                                     depth=(maxn + 4 if num else None), verdict=v, label=f"MaxN={maxn} nbits={nb} C={c}", timeout=3000)
